@@ -127,7 +127,8 @@ def main(argv=None):
     canaries = [ob for ob in E.obligations if ob.kind == "canary"]
     vac = [ob for ob in E.obligations if ob.kind == "vacuity"]
     refuted = [ob for ob in real if ob.result == "sat"]
-    unknown = [ob for ob in real if ob.result not in ("sat", "unsat")]
+    candidates = [ob for ob in real if ob.result == "sat-relaxed"]      # refuted only modulo the quantified axioms
+    unknown = [ob for ob in real if ob.result not in ("sat", "unsat", "sat-relaxed")]
     discharged = [ob for ob in real if ob.result == "unsat"]
     status = 0
     lines = []
@@ -136,7 +137,9 @@ def main(argv=None):
     by_func_canary = {}
     for ob in canaries:
         by_func_canary.setdefault(ob.func, []).append(ob.result)
-    dead_funcs = [f for f, rs in by_func_canary.items() if "sat" not in rs]
+    # a function is vacuous only if `False` is *proved* on every sampled exit path (unknown = solver could not build a
+    # model under the quantified spec-function axioms; that is not evidence of vacuity)
+    dead_funcs = [f for f, rs in by_func_canary.items() if all(r == "unsat" for r in rs)]
     if vacuous or dead_funcs or not real:
         for ob in vacuous:
             lines.append("CHECKER-ERROR property=%s vacuous precondition: %s" % (pid, ob.name))
@@ -164,6 +167,27 @@ def main(argv=None):
             known_hit.setdefault(f["id"], f)
         else:
             violations.append(ob)
+    # Obligations that are no longer discharged but not refuted outright -- candidate counterexamples (a model of the
+    # quantifier-free part only) and solver unknowns -- count as violations only when the native harness finds a concrete
+    # input on which the real code breaks the sidecar contract; otherwise they stay undecided (exit 2).
+    cand_found = None
+    open_obs = [ob for ob in candidates + unknown if not any(ob.name.startswith(f["obligation"]) for f in findings)]
+    for ob in candidates + unknown:
+        f = next((f for f in findings if ob.name.startswith(f["obligation"])), None)
+        if f is not None:
+            known_hit.setdefault(f["id"], f)
+    if open_obs and P.get("harness"):
+        cand_found = run_harness(P["harness"], pid, "find", seed, 300)
+    if open_obs and cand_found and cand_found.get("failing_input") is not None:
+        violations = violations + open_obs
+        lines = [ln for ln in lines if not ln.startswith("UNDECIDED")]
+        status = 0 if status == 2 else status
+    else:
+        for ob in candidates:
+            if ob in open_obs:
+                lines.append("UNDECIDED property=%s obligation=%s result=candidate-counterexample-not-reproduced" % (pid, ob.name))
+                status = max(status, 2)
+
     for fid, f in known_hit.items():
         lines.append("KNOWN-FINDING: property=%s %s" % (pid, f["what"]))
 
@@ -171,9 +195,9 @@ def main(argv=None):
     if violations:
         os.makedirs(os.path.join(VERIF, "out", "replay"), exist_ok=True)
         harness = P.get("harness")
-        found = None
-        if harness:
-            found = run_harness(harness, pid, "find", seed, 120)
+        found = cand_found
+        if harness and found is None:
+            found = run_harness(harness, pid, "find", seed, 300)
         for i, ob in enumerate(violations[:10]):
             rp = os.path.join(VERIF, "out", "replay", "%s_%d.json" % (pid, i))
             doc = {"property": pid, "obligation": ob.name, "kind": ob.kind, "backend": ob.backend,
@@ -237,7 +261,7 @@ def main(argv=None):
                 "by_backend": by_backend,
                 "solver_time_s": round(sum(ob.time for ob in real), 2),
                 "solver_wall_s": round(solve_wall, 2),
-                "vacuity": {"pre_sat_checks": len(vac), "reachable_exit_paths": sum(1 for ob in canaries if ob.result == "sat"),
+                "vacuity": {"pre_sat_checks": len(vac), "reachable_exit_paths": sum(1 for ob in canaries if ob.result == "sat"), "canary_unknown": sum(1 for ob in canaries if ob.result not in ("sat", "unsat")),
                             "exit_paths": len(canaries)},
                 "paths": E.stats["paths"], "feasibility_checks": E.feas_checks,
                 "refuted": [ob.name for ob in refuted], "undecided": [ob.name for ob in unknown] + [u[0] for u in E.unsupported],
